@@ -161,6 +161,17 @@ func cmdCheck(args []string) int {
 	}
 	known := loadKnown()
 
+	var preNotes []string
+	if prop == "C09" {
+		note, err := prepareC09()
+		if err != nil {
+			fmt.Println("ERROR C09 table extraction:", err)
+			return 2
+		}
+		fmt.Println("symgo:", note)
+		preNotes = append(preNotes, note)
+	}
+	_ = preNotes
 	harnessRoot := filepath.Join(verifRoot, "harness")
 	overlay, realFiles, err := harnessOverlay(repoRoot, harnessRoot, cfg.Packages, false)
 	if err != nil {
